@@ -21,21 +21,28 @@ pub enum Cancelled<T> {
     Cancelled(u32),
 }
 
-/// Polls `fut`; at its `at`-th poll (0-based) drops it instead.
+/// Polls `fut`; at its `at`-th poll (0-based) drops it instead. If the future is still pending at
+/// quiescence (nothing polls it any more), it is dropped then.
 pub struct CancelAt<F: Future> {
     fut: Option<Pin<Box<F>>>,
     at: u32,
     polls: u32,
+    idle: Pin<Box<tokio::time::Sleep>>,
 }
 
 pub fn cancel_at<F: Future>(fut: F, at: u32) -> CancelAt<F> {
-    CancelAt { fut: Some(Box::pin(fut)), at, polls: 0 }
+    CancelAt {
+        fut: Some(Box::pin(fut)),
+        at,
+        polls: 0,
+        idle: Box::pin(tokio::time::sleep(std::time::Duration::from_millis(500))),
+    }
 }
 
 impl<F: Future> Future for CancelAt<F> {
     type Output = Cancelled<F::Output>;
     fn poll(mut self: Pin<&mut Self>, cx: &mut Context<'_>) -> Poll<Self::Output> {
-        if self.polls >= self.at {
+        if self.polls >= self.at || self.idle.as_mut().poll(cx).is_ready() {
             self.fut = None;
             return Poll::Ready(Cancelled::Cancelled(self.polls));
         }
